@@ -463,6 +463,41 @@ func consumers(vals []zed.Value, from string, rep *reporter) {
 	}
 }
 
+// zngReadAheadSafe tells whether the input may be given to the threaded ZNG
+// scanner after the synchronous run ended with an error.  The threaded
+// scanner's input goroutine keeps parsing frames and handing them to workers
+// while an earlier frame's error is still on its way to the caller, so it
+// reaches frames the synchronous run never saw; a listed panic in one of them
+// would kill the process instead of being counted.  The synchronous scanner
+// keeps no sticky error: reading on after each error visits those frames on
+// the test goroutine.  Only a panic with a listed signature vetoes the
+// threaded run (and is counted); anything else is left for the threaded run
+// to show.
+func zngReadAheadSafe(input []byte, validate bool, rep *reporter) bool {
+	safe := true
+	if p := catch(func() {
+		r := zngio.NewReaderWithOpts(zed.NewContext(), bytes.NewReader(input), zngio.ReaderOpts{Threads: 1, Max: readMax, Validate: validate})
+		defer r.Close()
+		errs := 0
+		for n := 0; n <= 255*len(input)+1 && errs <= len(input)+1; n++ {
+			v, err := r.Read()
+			if err != nil {
+				errs++
+				continue
+			}
+			if v == nil {
+				return
+			}
+		}
+	}); p != nil {
+		if sig := "C11/panic@" + p.site(); vt.IsKnown(sig) {
+			rep.report(sig, "")
+			safe = false
+		}
+	}
+	return safe
+}
+
 // ---- VNG pre-flight
 //
 // vng.NewObject decodes the metadata section with a zngio reader that uses
@@ -504,8 +539,47 @@ func looksLikeVNG(b []byte) (meta []byte, ok bool) {
 //     leaf of the metadata value, in order and in the metadata's own context.
 //
 // Both are reported (once) under the signature of the recoverable panic.
+// maxAnnouncedSize scans ZNG frame headers from the start of b (as far as they
+// are well-formed) and returns the largest uncompressed size announced by a
+// compressed frame.
+func maxAnnouncedSize(b []byte) uint64 {
+	var m uint64
+	for o := 0; o < len(b); {
+		code := b[o]
+		if code == 0xff {
+			o++
+			continue
+		}
+		if code&0x80 != 0 {
+			break
+		}
+		v, n := binary.Uvarint(b[o+1:])
+		if n <= 0 || v > 1<<40 {
+			break
+		}
+		size := int(v<<4) | int(code&0xf)
+		body := o + 1 + n
+		if code&0x40 != 0 && body+1 < len(b) {
+			if u, un := binary.Uvarint(b[body+1:]); un > 0 {
+				m = max(m, u)
+			}
+		}
+		if body+size > len(b) {
+			break
+		}
+		o = body + size
+	}
+	return m
+}
+
 func vngPreflight(meta []byte, rep *reporter) (ok bool) {
 	ok = true
+	if vt.IsKnown("C11/alloc/vng/big-blocks") && maxAnnouncedSize(meta) > 48<<20 {
+		// (listed: readMetadata's reader would allocate what the frame header
+		// announces, up to 1 GiB + 25%; do not do that in every such case)
+		rep.report("C11/alloc/vng/big-blocks", "")
+		return false
+	}
 	var val *zed.Value
 	zctx := zed.NewContext()
 	var m0, m1 runtime.MemStats
@@ -545,6 +619,18 @@ func vngPreflight(meta []byte, rep *reporter) (ok bool) {
 		return true
 	}
 	checkAlloc("C11/alloc/vng", "decoding the metadata section the way vng.readMetadata does (zngio reader with default options, Max = 1 GiB)")
+	if oracle.HasNullUnion(*val) {
+		// zson.(*UnmarshalZNGContext).lookupGoType: `case *zed.TypeUnion: return
+		// u.lookupGoType(typ.Untag(bytes))`, and TypeUnion.Untag(nil) returns the
+		// union type itself with nil bytes: a null union value under an
+		// interface-typed Go field (every nested vng.Metadata is one) recurses
+		// until "fatal error: stack overflow" (1 GB of stack; not recoverable).
+		// Seen as a process crash; it cannot be observed in-process, so the
+		// structural condition is what gets reported and kept from the reader.
+		rep.report("C11/fatal-stack-overflow@/zson.(*UnmarshalZNGContext).lookupGoType[null-union]",
+			"the VNG metadata value contains a null value of union type: zson unmarshal into the interface-typed vng.Metadata fields recurses forever in lookupGoType (Untag(nil) returns the same union type) until the runtime aborts with 'fatal error: stack overflow'")
+		ok = false
+	}
 	defer func() {
 		checkAlloc("C11/alloc/typevalue", "Context.DecodeTypeValue on the type values of the metadata")
 	}()
